@@ -403,6 +403,63 @@ type OrdMaps struct {
 	G map[uint64]bool        `serix:"g,lenPrefix=uint8,maxLen=4"` // registered: flag false only (tag creates the rules)
 }
 
+// ---- defined element / key types (pool in named.go) and specially treated types behind pointers
+
+// NamedElems: collections whose element (or key) type is a defined type over a basic kind; every
+// field is expressible in the JSON form. A defined one-byte number is an object of its own: [4]NU8
+// and []NU8 are collections with a count prefix, not byte arrays / byte slices.
+type NamedElems struct {
+	A  [4]NU8           `serix:"a,lenPrefix=uint8"`
+	S  []NU8            `serix:"s,lenPrefix=uint16"`
+	P  *[4]NU8          `serix:"p,lenPrefix=uint8"`
+	O  *[2]NU8          `serix:"o,optional,lenPrefix=uint32"`
+	B  []NBool          `serix:"b,lenPrefix=uint8"`
+	I  [2]NI16          `serix:"i,lenPrefix=uint8"`
+	ST []NStr           `serix:"st,lenPrefix=uint8"`
+	MS map[NStr]NU64    `serix:"ms,lenPrefix=uint8"`
+	MI map[NI64]NBool   `serix:"mi,lenPrefix=uint8"`
+	BS []NBytes         `serix:"bs,lenPrefix=uint8"`
+	BA [2]NArr4         `serix:"ba,lenPrefix=uint8"`
+	MA map[NArr4]NBytes `serix:"ma,lenPrefix=uint8"`
+	NA NU8Arr4          `serix:"na"`
+	NS NU8Slice         `serix:"ns"`
+	Z  uint16           `serix:"z"`
+}
+
+// NamedBin: the same with map keys the JSON form cannot express, and nested arrays.
+type NamedBin struct {
+	M  map[NU8]NU8     `serix:"m,lenPrefix=uint8"`
+	MB map[NBool]NI16  `serix:"mb,lenPrefix=uint8"`
+	MK map[NU8Arr4]NU8 `serix:"mk,lenPrefix=uint8"`
+	NM NU8Map          `serix:"nm"`
+	AA [2][2]NU8       `serix:"aa,lenPrefix=uint8"`
+	PA *NU8Arr4        `serix:"pa,optional"`
+	Z  uint8           `serix:"z"`
+}
+
+// PtrSpecial: time.Time, *big.Int, a custom Serializable and a defined byte array behind pointers, in
+// every position. A pointer encodes as its pointee, an optional one as marker + payload.
+type PtrSpecial struct {
+	T  *time.Time            `serix:"t"`
+	O  *time.Time            `serix:"o,optional"`
+	L  []*time.Time          `serix:"l,lenPrefix=uint8"`
+	A  [2]*time.Time         `serix:"a,lenPrefix=uint8"`
+	M  map[uint64]*time.Time `serix:"m,lenPrefix=uint8"`
+	H  *Hash8                `serix:"h"`
+	Z  uint8                 `serix:"z"`
+}
+
+// PtrNums: the same for *big.Int (optional / element / map value) and pointers to a custom Serializable.
+type PtrNums struct {
+	N  *big.Int             `serix:"n,optional"`
+	NL []*big.Int           `serix:"nl,lenPrefix=uint8,maxLen=2"`
+	MN map[uint64]*big.Int  `serix:"mn,lenPrefix=uint8,maxLen=1"`
+	PC []*Custom24          `serix:"pc,lenPrefix=uint8"`
+	MC map[uint64]*Custom24 `serix:"mc,lenPrefix=uint8"`
+	PO *Custom24            `serix:"po,optional"`
+	Z  uint8                `serix:"z"`
+}
+
 func tof[T any]() reflect.Type { return reflect.TypeOf((*T)(nil)).Elem() }
 
 func must(err error) {
@@ -480,6 +537,13 @@ func NewStatic() *Universe {
 	must(api.RegisterTypeSettings(LexFalsePlain{}, ts.WithLengthPrefixType(serix.LengthPrefixTypeAsUint16).WithLexicalOrdering(false)))
 	must(api.RegisterTypeSettings(map[uint64]bool{}, ts.WithLexicalOrdering(false)))
 	must(api.RegisterTypeSettings(map[string]uint16{}, ts.WithLengthPrefixType(serix.LengthPrefixTypeAsUint32).WithLexicalOrdering(false).WithMaxLen(3)))
+	must(api.RegisterTypeSettings(NStr(""), ts.WithLengthPrefixType(serix.LengthPrefixTypeAsByte)))
+	must(api.RegisterTypeSettings(NBytes{}, ts.WithLengthPrefixType(serix.LengthPrefixTypeAsUint16)))
+	must(api.RegisterTypeSettings(NU8Arr4{}, ts.WithLengthPrefixType(serix.LengthPrefixTypeAsByte)))
+	must(api.RegisterTypeSettings(NU8Slice{}, ts.WithLengthPrefixType(serix.LengthPrefixTypeAsByte).WithLexicalOrdering(true).
+		WithArrayRules(&serix.ArrayRules{Max: 6, ValidationMode: serializer.ArrayValidationModeLexicalOrdering})))
+	must(api.RegisterTypeSettings(NU8Map{}, ts.WithLengthPrefixType(serix.LengthPrefixTypeAsUint16)))
+	must(api.RegisterTypeSettings([2]NU8{}, ts.WithLengthPrefixType(serix.LengthPrefixTypeAsByte)))
 
 	// schemas
 	namedString := str(tof[NamedString](), 2)
@@ -663,7 +727,72 @@ func NewStatic() *Universe {
 	topString := str(goTypes[String], 1) // registered lp32; option lp8
 	topString.Top = &TopSettings{LP: 1}
 
+	// defined element / key types
+	nsc := func(k Kind) *Shape { return &Shape{Kind: k, T: namedTypes[k]} }
+	arrOf := func(n int, lp uint8, tagLP bool, e *Shape) *Shape {
+		return &Shape{Kind: Array, T: reflect.ArrayOf(n, e.T), N: n, LP: lp, TagLP: tagLP, Elem: e}
+	}
+	nStr := str(tof[NStr](), 1)
+	nBytes := bytesOf(tof[NBytes](), 2)
+	nArr4 := barr(tof[NArr4](), 4, nil)
+	nu8Arr4 := &Shape{Kind: Array, T: tof[NU8Arr4](), N: 4, LP: 1, Elem: nsc(Uint8)}
+	nu8Slice := slice(tof[NU8Slice](), 1, Rules{LexSet: true, AutoOrder: true, ValOrder: true, Max: 6}, nsc(Uint8))
+	nu8Map := &Shape{Kind: Map, T: tof[NU8Map](), LP: 2, Key: nsc(Uint8), Elem: nsc(Uint8)}
+	namedElems := strct(tof[NamedElems](), nil,
+		&Field{Name: "A", Key: "a", S: arrOf(4, 1, true, nsc(Uint8))},
+		&Field{Name: "S", Key: "s", S: tagged(slice(reflect.TypeOf([]NU8{}), 2, Rules{}, nsc(Uint8)))},
+		&Field{Name: "P", Key: "p", S: ptr(arrOf(4, 1, true, nsc(Uint8)))},
+		&Field{Name: "O", Key: "o", S: ptr(arrOf(2, 4, true, nsc(Uint8))), Optional: true},
+		&Field{Name: "B", Key: "b", S: tagged(slice(reflect.TypeOf([]NBool{}), 1, Rules{}, nsc(Bool)))},
+		&Field{Name: "I", Key: "i", S: arrOf(2, 1, true, nsc(Int16))},
+		&Field{Name: "ST", Key: "st", S: tagged(slice(reflect.TypeOf([]NStr{}), 1, Rules{}, nStr))},
+		&Field{Name: "MS", Key: "ms", S: tagged(mapOf(1, Rules{}, nStr, nsc(Uint64)))},
+		&Field{Name: "MI", Key: "mi", S: tagged(mapOf(1, Rules{}, nsc(Int64), nsc(Bool)))},
+		&Field{Name: "BS", Key: "bs", S: tagged(slice(reflect.TypeOf([]NBytes{}), 1, Rules{}, nBytes))},
+		&Field{Name: "BA", Key: "ba", S: arrOf(2, 1, true, nArr4)},
+		&Field{Name: "MA", Key: "ma", S: tagged(mapOf(1, Rules{}, nArr4, nBytes))},
+		&Field{Name: "NA", Key: "na", S: nu8Arr4},
+		&Field{Name: "NS", Key: "ns", S: nu8Slice},
+		&Field{Name: "Z", Key: "z", S: sc(Uint16)},
+	)
+	namedBin := strct(tof[NamedBin](), nil,
+		&Field{Name: "M", Key: "m", S: tagged(mapOf(1, Rules{}, nsc(Uint8), nsc(Uint8)))},
+		&Field{Name: "MB", Key: "mb", S: tagged(mapOf(1, Rules{}, nsc(Bool), nsc(Int16)))},
+		&Field{Name: "MK", Key: "mk", S: tagged(mapOf(1, Rules{}, nu8Arr4, nsc(Uint8)))},
+		&Field{Name: "NM", Key: "nm", S: nu8Map},
+		&Field{Name: "AA", Key: "aa", S: arrOf(2, 1, true, arrOf(2, 1, false, nsc(Uint8)))},
+		&Field{Name: "PA", Key: "pa", S: ptr(nu8Arr4), Optional: true},
+		&Field{Name: "Z", Key: "z", S: sc(Uint8)},
+	)
+	pTime := func() *Shape { return ptr(sc(Time)) }
+	ptrSpecial := strct(tof[PtrSpecial](), nil,
+		&Field{Name: "T", Key: "t", S: pTime()},
+		&Field{Name: "O", Key: "o", S: pTime(), Optional: true},
+		&Field{Name: "L", Key: "l", S: tagged(slice(reflect.TypeOf([]*time.Time{}), 1, Rules{}, pTime()))},
+		&Field{Name: "A", Key: "a", S: arrOf(2, 1, true, pTime())},
+		&Field{Name: "M", Key: "m", S: tagged(mapOf(1, Rules{}, sc(Uint64), pTime()))},
+		&Field{Name: "H", Key: "h", S: ptr(hash8)},
+		&Field{Name: "Z", Key: "z", S: sc(Uint8)},
+	)
+	ptrNums := strct(tof[PtrNums](), nil,
+		&Field{Name: "N", Key: "n", S: sc(BigInt), Optional: true},
+		&Field{Name: "NL", Key: "nl", S: taggedMM(slice(reflect.TypeOf([]*big.Int{}), 1, Rules{Max: 2}, sc(BigInt)))},
+		&Field{Name: "MN", Key: "mn", S: taggedMM(mapOf(1, Rules{Max: 1}, sc(Uint64), sc(BigInt)))},
+		&Field{Name: "PC", Key: "pc", S: tagged(slice(reflect.TypeOf([]*Custom24{}), 1, Rules{}, ptr(custom24)))},
+		&Field{Name: "MC", Key: "mc", S: tagged(mapOf(1, Rules{}, sc(Uint64), ptr(custom24)))},
+		&Field{Name: "PO", Key: "po", S: ptr(custom24), Optional: true},
+		&Field{Name: "Z", Key: "z", S: sc(Uint8)},
+	)
+	topPtrTime := pTime() // Encode(&t)
+	topArr := arrOf(4, 1, false, nsc(Uint8)) // [4]NU8 as top-level value: the count prefix comes from the option
+	topArr.Top = &TopSettings{LP: 1}
+	topPtrArr := ptr(arrOf(3, 2, false, nsc(Uint8))) // *[3]NU8
+	topPtrArr.Top = &TopSettings{LP: 2}
+	topNamedArr := &Shape{Kind: Array, T: tof[NU8Arr4](), N: 4, LP: 4, Elem: nsc(Uint8)} // registered lp8; option lp32
+	topNamedArr.Top = &TopSettings{LP: 4}
+
 	u.Shapes = []*Shape{aliasing, aliasingJSON, ordMaps, topMap, topMap2, topMap3, topSlice, topSlice2, topBytes, topString, withEmbedded, withEmbeddedPtr, ptr(withEmbeddedPtr), withInlined, optS, ptr(bigTime), mapsBin, mapsJSON, lists, combined,
-		circle, ptr(rect), accB}
+		circle, ptr(rect), accB,
+		namedElems, namedBin, ptrSpecial, ptrNums, topPtrTime, topArr, topPtrArr, topNamedArr}
 	return u
 }
